@@ -144,6 +144,8 @@ func stateInlineAnnotationText(s *Scanner, c byte) state {
 		s.annotation = annotationNone
 		if s.isInsideMultiLineAnnotation() {
 			s.annotation = annotationMultiLine
+			// Here the text was a note, and another note may follow it.
+			s.step = fn
 		}
 
 	case '#':
